@@ -97,7 +97,7 @@ def drive_parallel(pid, tier, seed, hashseeds, scratch, extra_env=None):
     return events, stats
 
 
-def run_check(pid, tier, seed, replay=None):
+def run_check(pid, tier, seed, replay=None, write_evidence=True):
     t0 = time.time()
     mod = prop_module(pid)
     scratch = tempfile.mkdtemp(prefix="cgv_%s_" % pid)
@@ -117,7 +117,7 @@ def run_check(pid, tier, seed, replay=None):
         emit_report = []
         for j in ([] if replay else cfg.get("emit", [])):
             out = os.path.join(scratch, "emit_%s.ndjson" % j["name"])
-            r = tlc.emit(j["module"], j["cfg"], out, env=j.get("env"), workers=j.get("workers", 8), timeout=j.get("timeout", 900), scratch=scratch)
+            r = tlc.emit(j["module"], j["cfg"], out, env=j.get("env"), workers=j.get("workers", 8), timeout=j.get("timeout", 900), scratch=scratch, seed=seed)
             emit_report.append({"name": j["name"], "module": j["module"], "cfg": j["cfg"], "transitions_emitted": r["lines"],
                                 "bad_lines": r["bad_lines"], "distinct": r["distinct"], "generated": r["generated"], "wall_s": round(r["wall"], 1)})
         # ---- 3. drive the real code
@@ -268,7 +268,7 @@ def run_check(pid, tier, seed, replay=None):
             "wall_s": round(time.time() - t0, 1),
             "violations": len(viol),
         }
-        if not replay:
+        if not replay and write_evidence:
             os.makedirs(os.path.join(ROOT, "evidence"), exist_ok=True)
             with open(os.path.join(ROOT, "evidence", pid + ".json"), "w") as f:
                 json.dump(ev, f, indent=1)
@@ -298,8 +298,9 @@ def main(argv=None):
     ap.add_argument("--tier", default=os.environ.get("VERIF_TIER", "quick"), choices=["quick", "thorough"])
     ap.add_argument("--seed", type=int, default=int(os.environ.get("VERIF_SEED", "0") or 0))
     ap.add_argument("--replay", default=None)
+    ap.add_argument("--no-evidence", action="store_true", help="do not rewrite evidence/<id>.json (used when trying seeded changes)")
     a = ap.parse_args(argv)
-    sys.exit(run_check(a.prop, a.tier, a.seed, a.replay))
+    sys.exit(run_check(a.prop, a.tier, a.seed, a.replay, not a.no_evidence))
 
 
 if __name__ == "__main__":
